@@ -943,6 +943,8 @@ package gohlslib
 //@   requires 0 <= ts.leadingBaseTime && ts.leadingBaseTime < 4611686018427387904 && -4611686018427387904 < v && v < 4611686018427387904
 //@   requires (ts.leadingBaseTime * clockRate) / ts.leadingTimeScale < 4611686018427387904
 //@   ensures result == v - (ts.leadingBaseTime * clockRate) / ts.leadingTimeScale
+//@   witness ts.leadingBaseTime
+//@   witness ts.leadingTimeScale
 //@ end
 
 //@ func clientTrack.handleData
@@ -1505,6 +1507,9 @@ package gohlslib
 //@   ensures result != nil ==> *result == old(ts.ntpValue) + timestampToDuration(timestamp - multiplyAndDivide(old(ts.ntpTimestamp), clockRate, old(ts.ntpClockRate)), clockRate)
 //@   ensures result != nil ==> fresh(result)
 //@   requires unheld(&ts.mutex) && ctx != nil && clockRate > 0 && (ts.ntpAvailable ==> ts.ntpClockRate > 0)
+//@   witness ts.ntpTimestamp
+//@   witness ts.ntpClockRate
+//@   witness ts.ntpValue
 //@ end
 
 //@ func clientTimeConvFMP4.setLeadingNTPReceived
